@@ -276,6 +276,15 @@ def knownEcall (n : CNode) : Option Word :=
 def isProgramExit (n : CNode) : Bool :=
   knownEcall n == some 10#32 || knownEcall n == some 93#32
 
+/-- `CfgNode::known_ecall_signature` -/
+def ecallSignature (n : CNode) : Option (RegSet × RegSet) :=
+  match knownEcall n with
+  | some c =>
+    match Gen.ecallTable.find? (fun row => row.1 == c.toInt) with
+    | some (_, ins, outs) => some (RegSet.ofList ins, RegSet.ofList outs)
+    | none => none
+  | none => none
+
 def ecallTerm (g0 : Cfg) : Cfg := Id.run do
   let mut g := g0
   for i in List.range g0.nodes.size do
